@@ -77,6 +77,9 @@ func genSpec(t *rapid.T) sm.Spec {
 	}
 	n := rapid.IntRange(minLen, 30).Draw(t, "len")
 	uniform := rapid.IntRange(0, 3).Draw(t, "uniform-cols") == 0
+	// one case in forty spreads the rows of a row-stored alignment over several hundred positions,
+	// so that Flush has to pad by 200 letters and more (long runs are filled by another code path)
+	far := !s.Aligned() && rapid.IntRange(0, 39).Draw(t, "far-apart-rows") == 17
 	first := ""
 	for i := 0; i < nrows; i++ {
 		l, off := n, 0
@@ -84,6 +87,9 @@ func genSpec(t *rapid.T) sm.Spec {
 			if rapid.IntRange(0, 2).Draw(t, "ragged") > 0 {
 				l = rapid.IntRange(0, 30).Draw(t, "rowlen")
 				off = rapid.SampledFrom([]int{0, 0, 1, 2, 5, 9, -3}).Draw(t, "offset")
+			}
+			if far && i > 0 {
+				off = rapid.SampledFrom([]int{199, 200, 201, 257, 300, 511}).Draw(t, "far-offset")
 			}
 		}
 		r := sm.Row{Name: fmt.Sprintf("r%d", i), Offset: off, L: genRunLetters(t, s.Alpha, l), Strand: 1}
@@ -594,6 +600,9 @@ func classes(c editCase) []string {
 	for i, r := range c.Spec.Rows {
 		if i > 0 && (r.Offset != c.Spec.Rows[0].Offset || len(r.L) != len(c.Spec.Rows[0].L)) {
 			ragged = true
+		}
+		if r.Offset >= 199 {
+			l = append(l, "rows-200-or-more-apart")
 		}
 	}
 	for _, o := range c.Ops {
